@@ -15,6 +15,8 @@ let parse_ops (t : toks) : op list =
      | "ctn" -> let k = next_nat t in push (CtorN k)
      | "ctv" -> let k = next_nat t in let x = next_z t in push (CtorNVal (k, x))
      | "ctr" -> let xs = zl t in push (CtorRange xs)
+     | "ctf" -> let xs = zl t in push (CtorRangeFwd xs)
+     | "cta" -> let xs = zl t in push (CtorMoveArr xs)
      | _ ->
        let tg = b t in
        (match o with
@@ -28,6 +30,12 @@ let parse_ops (t : toks) : op list =
         | "inn" -> let p = next_nat t in let n = next_nat t in let x = next_z t in push (InsertN (tg, p, n, x))
         | "irg" -> let p = next_nat t in let xs = zl t in push (InsertRange (tg, p, xs))
         | "mig" -> let p = next_nat t in let xs = zl t in push (MoveInsertRange (tg, p, xs))
+        | "irf" -> let p = next_nat t in let xs = zl t in push (InsertRangeFwd (tg, p, xs))
+        | "mif" -> let p = next_nat t in let xs = zl t in push (MoveInsertRangeFwd (tg, p, xs))
+        | "asf" -> let xs = zl t in push (AssignRangeFwd (tg, xs))
+        | "kcc" -> push (CopyConstruct tg)      (* stack(Container const&): the vector's copy constructor *)
+        | "kmc" -> push (MoveConstruct tg)      (* stack(Container&&) *)
+        | "fei" -> let p = next_z t in push (EraseIf (tg, p))   (* etl::erase_if(flat_set&, pred) = remove_if + erase *)
         | "era" -> let p = next_nat t in push (EraseAt (tg, p))
         | "err" -> let f = next_nat t in let l = next_nat t in push (EraseRange (tg, f, l))
         | "clr" -> push (Clear tg)
@@ -137,6 +145,16 @@ let render_step raw (r : report) : string =
   Printf.sprintf "; %s / %s tmp %d w %s" head (if raw then render_raw r.r_raw else render_proj r.r_toks)
     (int_of_nat r.r_tmp) (b2s r.r_ok)
 
+(* the tail of a hist / rawhist leg: after a fired precondition nothing is compared beyond the legality of the prefix *)
+let hist_tail raw steps fin wf alive =
+  let body = String.concat " " (List.map (render_step raw) steps) in
+  if List.exists (fun r -> not r.r_done) steps then
+    Printf.sprintf "%s ; stopped ; wf %s" body (b2s (List.for_all (fun r -> r.r_ok) steps))
+  else
+    let finr = Printf.sprintf "; end / %s tmp %d w %s" (if raw then render_raw fin.r_raw else render_proj fin.r_toks)
+        (int_of_nat fin.r_tmp) (b2s fin.r_ok) in
+    Printf.sprintf "%s%s%s ; wf %s alive %d" body (if body = "" then "" else " ") finr (b2s wf) (int_of_nat alive)
+
 let flavour_of family =
   silent_assign := false;
   let fl = String.sub family 3 (String.length family - 3) in
@@ -173,6 +191,15 @@ let parse_oops (t : toks) : oop list =
         | "vvm" -> let j = next_nat t in let x = next_z t in push (VValueOrM (tg, j, x))
         | "voc" -> push (VCopyConstruct tg)     (* optional::or_else const&: *this ? *this : f() *)
         | "vom" -> push (VMoveConstruct tg)     (* optional::or_else &&:     *this ? move( *this) : f() *)
+        | "vsv" | "vsu" | "vsr" -> let j = next_nat t in let x = next_z t in push (VScopedValue (j, x))
+        | "vau" | "vaw" -> let j = next_nat t in let x = next_z t in push (VEmplace (tg, j, x))   (* optional = optional<U>: emplace( *other) / reset() *)
+        | "vnd" -> push (VCopyIf (tg, nat_of_int 0))   (* optional::and_then: nothing is copied *)
+        | "vne" -> push (VMoveIf (tg, nat_of_int 0))
+        | "vnc" | "vnl" -> push (VCopyIf (tg, nat_of_int 1))   (* expected::and_then: U(unexpect, error()) *)
+        | "vnm" -> push (VMoveIf (tg, nat_of_int 1))
+        | "vrc" -> push (VCopyIf (tg, nat_of_int 0))           (* expected::or_else: G(in_place, **this) *)
+        | "vrm" -> push (VMoveIf (tg, nat_of_int 0))
+        | "fac" -> let j = next_nat t in let x = next_z t in push (FAssignCr (tg, j, x))
         | "fxc" -> push (FCopyConstruct tg)     (* converting constructors from another capacity *)
         | "fxm" -> push (FMoveConstruct tg)
         | "fas" -> let j = next_nat t in let x = next_z t in push (FAssign (tg, j, x))
@@ -211,8 +238,10 @@ let run_own op t =
     let stopped = List.exists (fun r -> not r.r_done) steps in
     let selfs = own_self_checks fl trk fn ops in
     let st = storage_wf (own_trace fl trk fn ops) in
-    let m = Printf.sprintf "%swf %s alive %d st %s self%s" (if stopped then "contract " else "") (b2s wf) (int_of_nat alive) (b2s st)
-        (String.concat "" (List.map (fun x -> " " ^ b2s x) selfs)) in
+    let m =
+      if stopped then Printf.sprintf "contract wf %s" (b2s (List.for_all (fun r -> r.r_ok) steps))
+      else Printf.sprintf "wf %s alive %d st %s self%s" (b2s wf) (int_of_nat alive) (b2s st)
+          (String.concat "" (List.map (fun x -> " " ^ b2s x) selfs)) in
     let sp = match own_spec_verdict ops with
       | None -> "na"
       | Some (((w, a), ss), st') ->
@@ -220,11 +249,7 @@ let run_own op t =
     (m, sp)
   end else begin
     let raw = op = "orawhist" in
-    let body = String.concat " " (List.map (render_step raw) steps) in
-    let finr = Printf.sprintf "; end / %s tmp %d w %s" (if raw then render_raw fin.r_raw else render_proj fin.r_toks)
-        (int_of_nat fin.r_tmp) (b2s fin.r_ok) in
-    let m = Printf.sprintf "%s%s%s ; wf %s alive %d" body (if body = "" then "" else " ") finr (b2s wf) (int_of_nat alive) in
-    (m, "na")
+    (hist_tail raw steps fin wf alive, "na")
   end
 
 
@@ -237,6 +262,8 @@ let parse_aops (t : toks) : aop list =
     let push x = ops := x :: !ops in
     (match o with
      | "asw" -> push ASwap
+     | "ace" | "acp" -> push ACtorCopyEach    (* from k objects / from the members of a pair<U0, U1> *)
+     | "ame" | "amp" -> push ACtorMoveEach
      | _ ->
        let tg = b t in
        (match o with
@@ -247,6 +274,8 @@ let parse_aops (t : toks) : aop list =
         | "acc" -> push (ACopyConstruct tg)
         | "amc" -> push (AMoveConstruct tg)
         | "ass" -> push (ASelfSwap tg)
+        | "aqa" -> push (AConvCopyAssign tg)
+        | "aqm" -> push (AConvMoveAssign tg)
         | _ -> raise Not_found))
   done;
   List.rev !ops
@@ -267,15 +296,48 @@ let run_agg op t =
     (m, sp)
   end else begin
     let raw = op = "arawhist" in
-    let body = String.concat " " (List.map (render_step raw) steps) in
-    let finr = Printf.sprintf "; end / %s tmp %d w %s" (if raw then render_raw fin.r_raw else render_proj fin.r_toks)
-        (int_of_nat fin.r_tmp) (b2s fin.r_ok) in
-    let m = Printf.sprintf "%s%s%s ; wf %s alive %d" body (if body = "" then "" else " ") finr (b2s wf) (int_of_nat alive) in
-    (m, "na")
+    (hist_tail raw steps fin wf alive, "na")
   end
+
+(* pcopy: element type with trivial destructor / assignment: only the copy constructions can be observed *)
+let run_pcopy t =
+  silent_assign := false;
+  let kind = next_str t in
+  let cap = next_nat t in
+  let n = next_int t in
+  let m = next_int t in
+  let what = next_str t in
+  let iv = kind = "iv" in
+  let z i = z_of_int i in
+  let fill tg base k = List.init k (fun i -> if iv then IvUncheckedEmplace (tg, z (base + i)) else EmplaceBack (tg, z (base + i))) in
+  let last = match what, iv with
+    | "cc", false -> CopyConstruct false | "mc", false -> MoveConstruct false
+    | "ca", false -> CopyAssign true | "ma", false -> MoveAssign true
+    | "cc", true -> IvCopyConstruct false | "mc", true -> IvMoveConstruct false
+    | "ca", true -> IvCopyAssign true | "ma", true -> IvMoveAssign true
+    | _ -> raise Not_found in
+  let ops = fill false 1 n @ fill true 101 m @ [last] in
+  let ((steps, _), _) = run_case false cap iv ops in
+  let r = List.nth steps (List.length steps - 1) in
+  let nm = function Slot (c, i) -> Printf.sprintf "s%d.%d" (int_of_nat c) (int_of_nat i) | _ -> "x" in
+  let evs = List.filter_map (function
+      | Construct (l, Copy s) -> Some (Printf.sprintf "C:%s:%s" (nm l) (nm s))
+      | Construct (l, Move s) -> Some (Printf.sprintf "M:%s:%s" (nm l) (nm s))
+      | Construct (l, Value _) -> Some (Printf.sprintf "E0:%s" (nm l))
+      | _ -> None) r.r_raw in
+  let (a, c) = r.r_obs in
+  let model = String.concat " " (evs @ [";"; zlist_s a; zlist_s c]) in
+  (* the property, written down directly *)
+  let third = what = "cc" || what = "mc" in
+  let moved = what = "mc" || what = "ma" in
+  let seqs base k = String.concat " " (string_of_int k :: List.init k (fun i -> string_of_int (base + i))) in
+  let sp_evs = List.init n (fun i -> Printf.sprintf "C:s%d.%d:s0.%d" (if third then 2 else 1) i i) in
+  let sp = String.concat " " (sp_evs @ [";"; (if iv && moved then "0" else seqs 1 n); (if third then seqs 101 m else seqs 1 n)]) in
+  (model, sp)
 
 let run_case op t =
   match op with
+  | "pcopy" -> run_pcopy t
   | "hist" | "rawhist" | "mon" ->
     let family = next_str t in
     let cap = next_nat t in
@@ -285,8 +347,10 @@ let run_case op t =
     if op = "mon" then begin
       let stopped = List.exists (fun r -> not r.r_done) steps in
       let selfs = self_checks fl cap iv (O, O) [] ops in
-      let m = Printf.sprintf "%swf %s alive %d self%s" (if stopped then "contract " else "") (b2s wf) (int_of_nat alive)
-          (String.concat "" (List.map (fun x -> " " ^ b2s x) selfs)) in
+      let m =
+        if stopped then Printf.sprintf "contract wf %s" (b2s (List.for_all (fun r -> r.r_ok) steps))
+        else Printf.sprintf "wf %s alive %d self%s" (b2s wf) (int_of_nat alive)
+            (String.concat "" (List.map (fun x -> " " ^ b2s x) selfs)) in
       let sp = match spec_verdict fl cap ops with
         | None -> "na"
         | Some ((w, a), ss) ->
@@ -294,11 +358,7 @@ let run_case op t =
       (m, sp)
     end else begin
       let raw = op = "rawhist" in
-      let body = String.concat " " (List.map (render_step raw) steps) in
-      let finr = Printf.sprintf "; end / %s tmp %d w %s" (if raw then render_raw fin.r_raw else render_proj fin.r_toks)
-          (int_of_nat fin.r_tmp) (b2s fin.r_ok) in
-      let m = Printf.sprintf "%s%s%s ; wf %s alive %d" body (if body = "" then "" else " ") finr (b2s wf) (int_of_nat alive) in
-      (m, "na")
+      (hist_tail raw steps fin wf alive, "na")
     end
   | "ohist" | "orawhist" | "omon" -> run_own op t
   | "ahist" | "arawhist" | "amon" -> run_agg op t
